@@ -428,10 +428,14 @@ def _db_valuation(f, env):
     def is_valid_call(t):
         return (t.get("f") == "ldb_iter_valid") or (t.get("fp") is not None and _callee(t) == "valid" and
                                                     t.get("a") and _ak(t["a"][0]) == "iter->iter->ptr")
-    order = sorted({(tuple(int(x) for x in e["l"].split(":")[1:3]), e["id"]) for b, i, e in f.events("call") if is_valid_call(e)})
+    in_assert = lambda t: any("assert" in str(m) for m in (t.get("mac") or ()))
+    order = sorted({(tuple(int(x) for x in e["l"].split(":")[1:3]), e["id"]) for b, i, e in f.events("call")
+                    if is_valid_call(e) and not in_assert(e)})
     ordinal = {cid: n + 1 for n, (_, cid) in enumerate(order)}
 
     def val(t):
+        if t.get("k") == "call" and in_assert(t):
+            return None if not is_valid_call(t) else 1     # an assertion's own validity test holds
         if t.get("k") == "call" and is_valid_call(t):
             kx = "valid#%d" % ordinal.get(t.get("id"), 0)
             if kx in env:
@@ -560,7 +564,7 @@ def check_db_iter(ctx):
     ]
     _db_table(ctx, dp, rows)
     same = sequences_under(dp, _db_token, _db_valuation(dp, dict(F, **{"valid": 1, "cmp": 0})))
-    ctx.check(all(s[-1] == "<loop>" and ("prev",) in s for s in same) and bool(same), "T12-dbiter-composition", "ldb_dbiter_prev:same-key-keeps-scanning",
+    ctx.check(all(s and s[-1] == "<loop>" and ("prev",) in s for s in same) and bool(same), "T12-dbiter-composition", "ldb_dbiter_prev:same-key-keeps-scanning",
               dp.name, dp.loc, "entries of the current key are skipped backwards until an earlier key appears",
               "ldb_dbiter_prev on an entry of the same key performs %s" % _fmt(same))
     _cmp_args(ctx, dp, [("iter->ucmp", "&ukey", "&iter->saved_key")], "the switch to backward scans to the first entry of an earlier key")
